@@ -740,19 +740,22 @@ func TestSessClean(t *testing.T) {
 }
 
 // effRcvWnd: the receive window the bounds are judged by. An accepted session exists -- with the library's default window of 32 --
-// and buffers segments before the application can configure it (C04 assumes windows are set before traffic); until its queues have
-// once been seen within the configured window, the default window applies if it is larger.
+// and buffers segments before the application can configure it (C04 assumes windows are set before traffic): segments accepted
+// under the default window may lie beyond the configured one and stay in rcv_buf until rcv_nxt reaches them. Until rcv_nxt has
+// advanced by 32 from where it was first seen, the default window applies if it is larger than the configured one.
+var wndBase sync.Map // "<settled map pointer>/<name>" -> rcv_nxt at the first sample
+
 func effRcvWnd(settled *map[string]bool, name string, st kcp.VerifKCPState) int {
 	wnd := int(st.RcvWnd)
-	if (*settled)[name] {
+	if (*settled)[name] || wnd >= 32 {
 		return wnd
 	}
-	if len(st.RcvQueue) <= wnd && len(st.RcvBuf) <= wnd {
+	key := fmt.Sprintf("%p/%s", settled, name)
+	b, _ := wndBase.LoadOrStore(key, st.RcvNxt)
+	if int32(st.RcvNxt-b.(uint32)) >= 32 {
 		(*settled)[name] = true
+		wndBase.Delete(key)
 		return wnd
 	}
-	if wnd < 32 {
-		return 32
-	}
-	return wnd
+	return 32
 }
